@@ -4,7 +4,7 @@ package martian
 
 // C11 (sequential path facts only): graceful shutdown finishes in-flight work, admits nothing new, leaks nothing.
 //
-//vf:assume C11: shutdown begins at one of: before the connection is served, while the first request is at the origin, after the first response while the client's second request is in flight, never; one connection carrying two requests (the second a GET or a CONNECT); a second connection accepted after shutdown began
+//vf:assume C11: shutdown begins at one of: before the connection is served, while the first request is at the origin, after the first response while the client's second request is in flight, never; one connection carrying two requests (the first from an HTTP/1.1 client or an HTTP/1.0 keep-alive client, the second a GET or a CONNECT); a second connection accepted after shutdown began
 //vf:assume C11: every timing/interleaving clause of the statement (Shutdown racing accept, registration, reads on real goroutines) is outside: one schedule is executed; Shutdown's polling timer never fires, so Shutdown is only called where it returns without waiting (drained, or context already done)
 
 import (
@@ -41,6 +41,9 @@ func vfH_C11_paths() {
 	p := &Proxy{RoundTripper: rt, WithoutWarning: true}
 	p.init()
 	first := "GET http://example.com/1 HTTP/1.1\r\nHost: example.com\r\n\r\n"
+	if vfrt.Choice("http10-keep-alive-client", 2) == 1 {
+		first = "GET http://example.com/1 HTTP/1.0\r\nHost: example.com\r\nConnection: keep-alive\r\n\r\n"
+	}
 	secondConnect := vfrt.Choice("second-request-is-connect", 2) == 1
 	wire := first + "GET http://example.com/2 HTTP/1.1\r\nHost: example.com\r\n\r\n"
 	if secondConnect {
@@ -99,6 +102,18 @@ func vfH_C11_paths() {
 		if err == nil {
 			body, _ := io.ReadAll(res.Body)
 			vfrt.Assert(string(body) == "ok" && res.Close, "paths/in-flight-response-complete-and-announces-close")
+		}
+		// ... and the proxy then closes that connection: it does not go back to waiting for the client
+		lastWrite := -1
+		for i, c := range conn.Calls {
+			if c == "Write" {
+				lastWrite = i
+			}
+		}
+		for i, c := range conn.Calls {
+			if i > lastWrite && lastWrite >= 0 {
+				vfrt.Assert(c != "Read", "paths/connection-closed-right-after-the-in-flight-response-without-reading-again")
+			}
 		}
 	case 3:
 		// a request the client first sends after shutdown has begun is never forwarded
